@@ -10,6 +10,7 @@
 package main
 
 import (
+	"os"
 	"bytes"
 	"fmt"
 	"math/big"
@@ -636,5 +637,10 @@ func main() {
 		"H(x) under a hasher is the library's signature of x under the private key 1 (BLST map_to_G1 defines the hash-to-curve image); the PoP hasher is rebuilt with hash.NewKMAC_128(PoP suite, \"H2C\", 128) (KMAC conformance itself is C13's business)",
 		"separation for tags outside the enumerated family rests on the injectivity of tag -> tag||SIG suite and on KMAC128 being collision resistant in its key; this is not enumerated",
 	)
+	// PoPs of two different keys generated / verified at the same time (scheduler variant; cmd/c12s in C16 mode)
+	os.Setenv("C12S_MODE", "c16")
+	run.SchedPart("C16_SCHED_BIN", "pop_under_concurrent_pop_calls",
+		"two threads, key A (one private-key object, generated / decoded / aggregated, public key not yet computed) and a second key B; all unordered pairs of {BLSGeneratePOP(skA), BLSVerifyPOP(pkA,popA), BLSGeneratePOP(skB), BLSVerifyPOP(pkB,popB), BLSVerifyPOP(pkB,popA)}; all schedules with <= 2 (thorough 3) preemptions over the statement-level scheduling points of the instrumented library; genuine PoPs verify, every call returns what it returns alone",
+		"BLS generated: [BLSGeneratePOP(skA)] || [BLSGeneratePOP(skB)]")
 	run.Finish()
 }
